@@ -58,7 +58,7 @@ def main():
         ],
         "checks": checks,
         "not_applicable": na,
-        "notes": "All checks rebuild from /repo's working tree (path dependencies / source copies made at run time). Exit 0 pass, 1 VIOLATION (replayed natively), 2 inconclusive (timeout, OOM, vacuity, unwinding, non-reproducing counterexample).",
+        "notes": "All checks rebuild from /repo's working tree (path dependencies / source copies made at run time). Exit 0 pass, 1 VIOLATION (replayed natively), 2 inconclusive (timeout, OOM, vacuity, unwinding, non-reproducing counterexample, harness crate that no longer builds against the model crates). thorough = quick + thorough-only harnesses with a recorded pass (lib/validated.json); DESIGN.md 7.10. Findings repaired by fix: commits are listed in known_findings.json; seeded changes and what catches them in seeded/RESULTS.md.",
     }
     json.dump(m, open(os.path.join(ROOT, "MANIFEST.json"), "w"), indent=1)
     print("claimed:", [c["property_id"] for c in checks])
